@@ -21,12 +21,12 @@ Definition alive (c : config) (k : cid) : Prop :=
   (exists self p, procs c !! self = Some p /\ own_chan p k) \/
   (exists st m, chans c !! k = Some st /\ ch_buf st = Some m /\ refs (OMsg k m) <> []).
 
-(* the survivors of a synchronous run (statement only): a process alive at quiescence is blocked
-   either receiving on its own negative provider channel or SENDING on its own positive provider
-   channel, and if every channel provided by a survivor is referenced by a client then nobody
+(* the survivors of a synchronous run: a process alive at quiescence is blocked on ITS OWN provider
+   channel, either receiving (negative type: poised) or SENDING a positive message (offering a result
+   nobody takes); and if every channel provided by a survivor is referenced by a client then nobody
    survives *)
 Definition progress_sync_statement (D : tenv) (F : list fundef) (teq : sty -> sty -> Prop) : Prop :=
-  forall Δ c, cfg_typed D F teq Δ c -> Topo c -> quiescent Sync D F c ->
+  forall Δ c, cfg_typed D F teq Δ c -> Topo c -> buffers_empty c -> quiescent Sync D F c ->
     (forall self p, procs c !! self = Some p ->
        exists k, own_chan p k /\
          (action_of Sync D p = ARecv k \/ exists m, action_of Sync D p = ASend k m /\ is_pos_rule (m_rule m) = true)) /\
@@ -231,6 +231,154 @@ Proof.
     destruct (procs c !! self) as [p|] eqn:Ep; auto. exfalso.
     destruct (own_chan_exists Δ p (ct_procs _ _ _ _ _ Hc _ _ Ep)) as [k Hk].
     apply (no_alive Δ c Hc Ht Hq Hroots k). left. exists self, p. auto.
+Qed.
+
+(* ------------------------------------------------------------------ synchronous mode *)
+Section QuiescentSync.
+Variables (Δ : gmap cid sty) (c : config).
+Hypothesis Hc : cfg_typed Δ c.
+Hypothesis Ht : Topo c.
+Hypothesis Hbe : buffers_empty c.
+Hypothesis Hq : quiescent Sync D F c.
+
+Lemma no_msg_objects k m : ~ obj_in c (OMsg k m).
+Proof. intros [st [Hst Eb]]. rewrite (Hbe k st Hst) in Eb. discriminate. Qed.
+
+(* every remaining process is blocked in a send or a receive on an open channel *)
+Lemma sync_blocked self p : procs c !! self = Some p ->
+  (exists k m, action_of Sync D p = ASend k m /\ msg_typed Δ k m /\ send_side p k m) \/
+  (exists k, action_of Sync D p = ARecv k /\ recv_side D Δ p k /\
+             forall r m, msg_typed Δ k m -> exists e, on_message r p m = EOk e).
+Proof.
+  intros Ep. pose proof Hc as [Hp Hm Hd Hf].
+  pose proof (Hq (Run self)) as Hs. simpl in Hs. rewrite Ep in Hs.
+  pose proof (typed_action_md D F teq Hteq HF Sync Δ p eq_refl (Hp _ _ Ep)) as Hv.
+  remember (action_of Sync D p) as a eqn:Ea. symmetry in Ea.
+  destruct Hv as [k m Hmsg Hside|k Hk Hside Hrecv|Hint].
+  - left. eauto.
+  - right. exists k. split; auto. split; auto. intros r m Hmsg.
+    destruct (Hrecv r m Hmsg) as [e [He _]]. eauto.
+  - exfalso. destruct (Hint self) as [e [Δ' [He _]]]; [apply (Hf self p (pr_next p) [] Ep); lia|].
+    rewrite (internal_effect_polarized F Sync self p eq_refl) in Hs. rewrite He in Hs. discriminate.
+Qed.
+
+Lemma acts_open self p k : procs c !! self = Some p ->
+  (action_of Sync D p = ARecv k \/ exists m, action_of Sync D p = ASend k m) ->
+  exists st, chans c !! k = Some st /\ ch_closed st = false.
+Proof.
+  intros Ep Ha. pose proof Hc as [Hp Hm Hd Hf].
+  assert (Hk : is_Some (Δ !! k)).
+  { pose proof (typed_action_md D F teq Hteq HF Sync Δ p eq_refl (Hp _ _ Ep)) as Hv.
+    destruct Ha as [Ha|[m Ha]]; rewrite Ha in Hv; inversion Hv; subst; auto.
+    match goal with H : msg_typed _ _ _ |- _ => destruct H as [T [HT _]]; eauto end. }
+  destruct (Hd k Hk) as [st Hst]. exists st. split; auto.
+  eapply (topo_closed_unused Sync D c eq_refl Ht); eauto.
+Qed.
+
+(* a sender and a receiver on the same open channel can meet *)
+Lemma rendezvous_enabled s r ps pr k m :
+  s <> r -> procs c !! s = Some ps -> procs c !! r = Some pr ->
+  action_of Sync D ps = ASend k m -> action_of Sync D pr = ARecv k ->
+  msg_typed Δ k m -> (forall r' m', msg_typed Δ k m' -> exists e, on_message r' pr m' = EOk e) -> False.
+Proof.
+  intros Hne Eps Epr Has Har Hmsg Hrecv.
+  destruct (acts_open r pr k Epr (or_introl Har)) as [st [Hst Hcl]].
+  pose proof (Hq (Rendezvous s r)) as Hs. simpl in Hs.
+  rewrite bool_decide_eq_false_2 in Hs by auto. rewrite Eps, Epr, Has, Har in Hs.
+  rewrite bool_decide_eq_true_2 in Hs by auto. rewrite Hst, Hcl in Hs.
+  destruct (Hrecv r m Hmsg) as [e He]. rewrite He in Hs. discriminate.
+Qed.
+
+(* somebody acts on j as its client *)
+Definition needs_sync (j : cid) : Prop :=
+  exists self p, procs c !! self = Some p /\ j ∈ form_chans (pr_body0 p) /\
+    ((exists T, action_of Sync D p = ARecv j /\ Δ !! j = Some T /\ pol_of_ty T Pos /\
+                forall r m, msg_typed Δ j m -> exists e, on_message r p m = EOk e) \/
+     (exists m, action_of Sync D p = ASend j m /\ msg_typed Δ j m /\ is_pos_rule (m_rule m) = false)).
+
+Lemma no_needs_sync : forall j, ~ needs_sync j.
+Proof.
+  destruct (topo_rank c Ht) as [rk [M [HM Hrk]]].
+  assert (H : forall n j, (M - rk j < n)%nat -> ~ needs_sync j).
+  { induction n as [|n IH]; intros j Hn [self [p [Ep [Hj Hact]]]]; [lia|].
+    assert (Hdom : is_Some (chans c !! j)).
+    { destruct Hact as [[T [Ha _]]|[m [Ha _]]].
+      - destruct (acts_open self p j Ep (or_introl Ha)) as [st [Hst _]]. eauto.
+      - destruct (acts_open self p j Ep (or_intror (ex_intro _ m Ha))) as [st [Hst _]]. eauto. }
+    pose proof (HM j Hdom) as HjM.
+    destruct (topo_ref_prov c Ht (OProc self p) j Ep Hj) as [o' [Ho' Hprov]].
+    destruct o' as [s' q|k' m']; [|exfalso; eapply no_msg_objects; eauto].
+    simpl in Ho'.
+    assert (Hne : s' <> self).
+    { intros ->. rewrite Ep in Ho'. injection Ho' as <-.
+      assert (rk j < rk j)%nat by (apply (Hrk (OProc self p)); auto). lia. }
+    destruct (sync_blocked s' q Ho') as [[w [mq [Eaq [Hmq Hside]]]]|[w [Eaq [[Tw [HTw Hside]] Hrq]]]].
+    - (* the provider sends *)
+      destruct Hside as [[Hown Hpos]|[Hbody Hneg]].
+      + assert (w = j) by (eapply own_chan_unique; eauto; eapply (ct_procs _ _ _ _ _ Hc); eauto). subst w.
+        destruct Hact as [[T [Ha [HT [Hpol Hrp]]]]|[m [Ha [Hm Hneg]]]].
+        * eapply (rendezvous_enabled s' self q p j mq); eauto.
+        * destruct (msg_pol _ _ _ Hm) as [T1 [HT1 Hp1]]. destruct (msg_pol _ _ _ Hmq) as [T2 [HT2 Hp2]].
+          rewrite HT1 in HT2. injection HT2 as <-. rewrite Hneg in Hp1. rewrite Hpos in Hp2.
+          eapply pol_unique; eauto.
+      + apply (IH w).
+        * assert (rk j < rk w)%nat by (apply (Hrk (OProc s' q)); auto).
+          assert (rk w <= M)%nat.
+          { apply HM. destruct (acts_open s' q w Ho' (or_intror (ex_intro _ mq Eaq))) as [st [Hst _]]. eauto. }
+          lia.
+        * exists s', q. split; auto. split; auto. right. exists mq. auto.
+    - (* the provider receives *)
+      destruct Hside as [[Hown Hneg]|[Hbody Hpos]].
+      + assert (w = j) by (eapply own_chan_unique; eauto; eapply (ct_procs _ _ _ _ _ Hc); eauto). subst w.
+        destruct Hact as [[T [Ha [HT [Hpol Hrp]]]]|[m [Ha [Hm Hnegm]]]].
+        * rewrite HT in HTw. injection HTw as <-. eapply pol_unique; eauto.
+        * eapply (rendezvous_enabled self s' p q j m); eauto.
+      + apply (IH w).
+        * assert (rk j < rk w)%nat by (apply (Hrk (OProc s' q)); auto).
+          assert (rk w <= M)%nat.
+          { apply HM. destruct (acts_open s' q w Ho' (or_introl Eaq)) as [st [Hst _]]. eauto. }
+          lia.
+        * exists s', q. split; auto. split; auto. left. exists Tw. auto. }
+  intros j. apply (H (S (M - rk j))). lia.
+Qed.
+
+Lemma sync_on_own self p : procs c !! self = Some p ->
+  exists k, own_chan p k /\
+    (action_of Sync D p = ARecv k \/ exists m, action_of Sync D p = ASend k m /\ is_pos_rule (m_rule m) = true).
+Proof.
+  intros Ep. destruct (sync_blocked self p Ep) as [[k [m [Ea [Hm Hside]]]]|[k [Ea [[T [HT Hside]] Hr]]]].
+  - destruct Hside as [[Hown Hpos]|[Hbody Hneg]]; [exists k; split; auto; right; eauto|].
+    exfalso. apply (no_needs_sync k). exists self, p. split; auto. split; auto. right. eauto.
+  - destruct Hside as [[Hown Hneg]|[Hbody Hpos]]; [exists k; split; auto|].
+    exfalso. apply (no_needs_sync k). exists self, p. split; auto. split; auto. left. exists T. auto.
+Qed.
+
+Lemma no_alive_sync :
+  (forall k, (exists self p, procs c !! self = Some p /\ own_chan p k) -> exists o, obj_in c o /\ k ∈ refs o) ->
+  forall k, ~ exists self p, procs c !! self = Some p /\ own_chan p k.
+Proof.
+  intros Hroots. destruct (topo_rank c Ht) as [rk [M [HM Hrk]]].
+  assert (H : forall n k, (rk k < n)%nat -> ~ exists self p, procs c !! self = Some p /\ own_chan p k).
+  { induction n as [|n IH]; intros k Hn Hal; [lia|].
+    destruct (Hroots k Hal) as [o [Ho Hk]].
+    destruct o as [s q|j m]; [|exfalso; eapply no_msg_objects; eauto].
+    simpl in Ho. destruct (own_chan_exists Δ q (ct_procs _ _ _ _ _ Hc _ _ Ho)) as [kq Hkq].
+    apply (IH kq).
+    - assert (rk kq < rk k)%nat by (apply (Hrk (OProc s q)); auto). lia.
+    - exists s, q. auto. }
+  intros k. apply (H (S (rk k))). lia.
+Qed.
+
+End QuiescentSync.
+
+Theorem progress_sync_partial : progress_sync_statement D F teq.
+Proof.
+  intros Δ c Hc Ht Hbe Hq. split.
+  - intros self p Ep. eapply sync_on_own; eauto.
+  - intros Hroots. apply map_empty. intros self.
+    destruct (procs c !! self) as [p|] eqn:Ep; auto. exfalso.
+    destruct (own_chan_exists Δ p (ct_procs _ _ _ _ _ Hc _ _ Ep)) as [k Hk].
+    apply (no_alive_sync Δ c Hc Ht Hbe Hroots k). exists self, p. auto.
 Qed.
 
 End RtProgress.
